@@ -348,4 +348,11 @@ def rule_f(ctx: Ctx) -> None:
     copy_ownership(ctx, 'C09.f')
 
 
-RULES = [rule_a, rule_b, rule_c, rule_d, rule_e, rule_f]
+def rule_g(ctx: Ctx) -> None:
+    """However a schemaLocation is spelled, it is resolved against the document that contains it: the base URL of the referencing
+    document travels down the fetch chain and wins over a configured default (C12.g body)."""
+    from .c12 import rule_g as base_url_chain
+    base_url_chain(ctx, 'C09.g')
+
+
+RULES = [rule_a, rule_b, rule_c, rule_d, rule_e, rule_f, rule_g]
